@@ -5,6 +5,7 @@ import (
 	"sync"
 
 	"go.brendoncarroll.net/p2p"
+	"go.brendoncarroll.net/p2p/verifhook"
 )
 
 type deliverReq[A p2p.Addr] struct {
@@ -31,6 +32,7 @@ func (q *TellHub[A]) Receive(ctx context.Context, fn func(p2p.Message[A])) error
 	if err := q.checkClosed(); err != nil {
 		return err
 	}
+	verifhook.Point(verifhook.TellHubReceiveEnter)
 	select {
 	case <-q.closed:
 		return q.err
@@ -41,6 +43,7 @@ func (q *TellHub[A]) Receive(ctx context.Context, fn func(p2p.Message[A])) error
 		return nil
 	default:
 		// blocking case
+		verifhook.Point(verifhook.TellHubReceiveBlock)
 		select {
 		case <-ctx.Done():
 			return ctx.Err()
@@ -62,6 +65,7 @@ func (q *TellHub[A]) Deliver(ctx context.Context, m p2p.Message[A]) error {
 		msg:  m,
 		done: make(chan struct{}),
 	}
+	verifhook.Point(verifhook.TellHubDeliver)
 	select {
 	case <-q.closed:
 		return q.err
@@ -119,6 +123,7 @@ func (q *AskHub[A]) ServeAsk(ctx context.Context, fn func(context.Context, []byt
 	if err := q.checkClosed(); err != nil {
 		return err
 	}
+	verifhook.Point(verifhook.AskHubServe)
 	select {
 	case <-ctx.Done():
 		return ctx.Err()
@@ -137,6 +142,7 @@ func (q *AskHub[A]) Deliver(ctx context.Context, respData []byte, msg p2p.Messag
 		resp: respData,
 		done: make(chan struct{}),
 	}
+	verifhook.Point(verifhook.AskHubDeliver)
 	select {
 	case <-ctx.Done():
 		return 0, ctx.Err()
